@@ -182,11 +182,52 @@ def scen_timeouts_inside_notify(ctx):
     return bad
 
 
+def scen_announce_under_lock(ctx):
+    """a waiter is held up for a moment just before it announces itself as a sleeper; a notifier that comes along in that
+    moment must not overlook it (the waiter still holds the condition's lock while it announces)"""
+    bad = []
+    for kind in ('notify', 'notify_all', 'event'):
+        ev = ctx.Event() if kind == 'event' else None
+        cond = ev._cond if ev else ctx.Condition()
+        state = {'first': True}
+        at_announce = threading.Event()
+
+        def before_announce():
+            if state['first']:
+                state['first'] = False
+                at_announce.set()
+                time.sleep(0.3)
+        cond._sleeping_count = Hooked(cond._sleeping_count, before=before_announce)
+        res = []
+
+        def waiter():
+            if ev:
+                res.append(ev.wait(3))
+            else:
+                with cond:
+                    res.append(cond.wait(3))
+        t = threading.Thread(target=waiter, daemon=True)
+        t.start()
+        if not at_announce.wait(5):
+            bad.append('%s: the waiter never reached its announcement' % kind)
+            continue
+        if ev:
+            ev.set()
+        else:
+            with cond:
+                getattr(cond, kind)()
+        t.join(6)
+        if res != [True]:
+            bad.append('%s issued while a waiter was inside wait() (just before announcing itself): the waiter was not '
+                       'woken (wait returned %r) -- lost wake-up' % (kind, res))
+    return bad
+
+
 def main():
     data = json.load(open(sys.argv[1]))
     print('replay of %s / %s' % (data['function'], data['obligation']))
     ctx = billiard.get_context()
-    bad = scen_event(ctx) + scen_condition(ctx) + scen_timeouts_inside_notify(ctx)
+    bad = scen_event(ctx) + scen_condition(ctx) + scen_timeouts_inside_notify(ctx) + scen_announce_under_lock(ctx)
     for b in bad[:8]:
         print('  violation on real code: ' + b)
     print('REPRODUCED on real code' if bad else 'not reproduced')
